@@ -126,128 +126,251 @@ Lemma all_child_next : forall r, all_child r = true -> next_is_desc r = false.
 Proof. intros [|[[|] st] r] H; try reflexivity. discriminate. Qed.
 
 (** * a whole path *)
-Theorem match_path_iff : forall D p n,
+Lemma below_root_top : forall D e c, wf_doc D = true -> below_root D e = true ->
+  In c (aos D e) -> parent D c <> None -> c = e.
+Proof.
+  intros D e c W B H Hc. unfold below_root in B.
+  destruct (parent D e) as [p|] eqn:Hp; [|discriminate].
+  apply aos_cases in H. destruct H as [H|[q [Hq H]]]; [exact H|].
+  rewrite Hp in Hq. inversion Hq. subst q. exfalso.
+  assert (Hpl : p < length D).
+  { pose proof (parent_lt _ _ _ Hp). pose proof (parent_valid _ _ _ Hp). lia. }
+  apply (root_kind D p W Hpl) in B.
+  rewrite (aos_eq D p), B in H. destruct H as [H|[]]. subst c. congruence.
+Qed.
+
+Lemma desc_no_next_all_child : forall r, desc_then_child r = true -> next_is_desc r = false ->
+  all_child r = true.
+Proof. intros [|[[|] st] r] G H; try reflexivity; try discriminate. exact G. Qed.
+
+Lemma snd_root_retry : forall D c F,
+  snd (root_retry D c F) = true <-> exists e, find (below_root D) (aos D c) = Some e /\ F e = true.
+Proof.
+  intros D c F. unfold root_retry. destruct (find (below_root D) (aos D c)) as [e|].
+  - destruct (F e) eqn:Fe; cbn [snd]; split.
+    + intros _. exists e. auto.
+    + reflexivity.
+    + discriminate.
+    + intros [e' [E Fe']]. inversion E. subst. congruence.
+  - cbn [snd]. split; [discriminate|]. intros [e' [E _]]. discriminate.
+Qed.
+
+(* soundness: no guard *)
+Theorem match_path_sound : forall D p n,
+  wf_doc D = true -> wf_path p -> n < length D ->
+  match_path D p n = true -> exists a, In a (aos D n) /\ In n (sel_path D p a).
+Proof.
+  intros D [h steps] n W [Wf Sh] Hn. unfold match_path, compile, sel_path in *.
+  cbn [p_head p_steps] in *.
+  destruct steps as [|[sp1 st1] r].
+  - destruct h as [| |fs].
+    + discriminate.
+    + cbn [app compile_steps next_is_desc sel_steps fold_left]. rewrite step_pattern_one, snd_let.
+      cbn [body].
+      assert (E : snd (if is_root (kind_of D n) then (Some n, true) else (Some n, false)) = is_root (kind_of D n))
+        by (destruct (is_root (kind_of D n)); reflexivity).
+      rewrite E. rewrite (root_kind D n W Hn).
+      intro Hp. exists n. split; [apply aos_self|]. left. rewrite root_of_eq, Hp. reflexivity.
+    + cbn [app compile_steps next_is_desc sel_steps fold_left]. rewrite step_pattern_one, snd_let.
+      cbn [body head_is_anyfn snd].
+      intro H. exists n. split; [apply aos_self|]. apply filter_In.
+      split; [unfold nodes; apply in_seq; lia|exact H].
+  - assert (Hne : (sp1, st1) :: r <> []) by discriminate.
+    pose proof (chain_sound D _ W Wf Hne n) as Cs.
+    destruct (compile_first sp1 st1 r) as [m1 [rest [Em [Um Hany]]]].
+    destruct h as [| |fs].
+    + cbn [app]. destruct sp1; [|discriminate]. intro H. rewrite Em in *.
+      destruct (user_result D m1 rest n Um) as [[g Hg]|Hg]; [|rewrite Hg in H; discriminate].
+      pose proof (Cs g Hg) as R. destruct (reach_first_ok D _ n g R) as [a Ha].
+      exists a. split; [eapply aos_parent_in; [eapply reach_aos; exact R|exact Ha]|].
+      apply (sel_steps_reach D _ W Hne). exists g. split; [exact R|].
+      exists a. split; [exact Ha|]. left. reflexivity.
+    + destruct sp1.
+      * cbn [next_is_desc app].
+        assert (RootCase : forall g c', reach D ((SChild, st1) :: r) n g -> parent D g = Some c' ->
+                  is_root (kind_of D c') = true ->
+                  exists a, In a (aos D n) /\ In n (sel_steps D [root_of D a] ((SChild, st1) :: r))).
+        { intros g c' Hg Hp Rt.
+          pose proof (aos_parent_in D g n c' (reach_aos D _ n g Hg) Hp) as Hin.
+          assert (Hc' : c' < length D).
+          { pose proof (parent_lt _ _ _ Hp). pose proof (parent_valid _ _ _ Hp). lia. }
+          apply (root_kind D c' W Hc') in Rt.
+          exists n. split; [apply aos_self|].
+          apply (sel_steps_reach D _ W Hne). exists g. split; [exact Hg|].
+          exists c'. split; [exact Hp|]. left. symmetry. apply root_unique; assumption. }
+        pose proof Em as Em'. rewrite compile_steps_cons in Em'. rewrite Em in *.
+        rewrite (head_generic D MRoot m1 rest n Um).
+        intros [g [c' [Hg [Hp Hb]]]]. apply Cs in Hg.
+        cbn [body] in Hb.
+        destruct (is_root (kind_of D c')) eqn:Rt; [apply (RootCase g c' Hg Hp Rt)|].
+        destruct (s_attr st1) eqn:At; [inversion Em'; subst m1; discriminate|].
+        destruct (next_is_desc r) eqn:Nd; [|inversion Em'; subst m1; discriminate].
+        inversion Em'. subst m1. clear Em'.
+        apply snd_root_retry in Hb. destruct Hb as [e [Fd Fe]].
+        apply find_some in Fd. destruct Fd as [Hin Be].
+        pose proof Be as Be'. unfold below_root in Be'.
+        destruct (parent D e) as [r0|] eqn:Hpe; [|discriminate].
+        destruct (wf_parent_container D e r0 W Hpe) as [_ Hnr].
+        destruct (wf_parent_container D g c' W Hp) as [Hcc _].
+        assert (Hna : is_attr (kind_of D e) = false).
+        { destruct (aos_container D e c' W Hin) as [E|E]; [subst|]; apply container_not_attr; assumption. }
+        assert (S : step_ok D (s_attr st1) (s_test st1) (s_preds st1) e = true).
+        { unfold step_ok. rewrite At, Hna, Hnr. exact Fe. }
+        inversion_clear Wf as [|? ? Wst Wr]. cbn [snd] in Wst.
+        apply (step_ok_spec D st1 e W Wst) in S.
+        destruct r as [|[[|] st2] r']; try discriminate.
+        assert (Re : reach D ((SChild, st1) :: (SDesc, st2) :: r') n e).
+        { cbn [reach] in Hg |- *. destruct Hg as [_ [c2 [R2 [p2 [Hp2 Hanc]]]]].
+          split; [exact S|]. exists c2. split; [exact R2|]. exists p2. split; [exact Hp2|].
+          eapply aos_trans; [|exact Hanc]. eapply aos_up; [exact Hp|exact Hin]. }
+        apply (RootCase e r0 Re Hpe Be').
+      * cbn [next_is_desc app]. rewrite Em in *.
+        rewrite (head_generic D MAnyWP m1 rest n Um).
+        intros [g [c' [Hg [Hp Hb]]]]. apply Cs in Hg.
+        pose proof (aos_parent_in D g n c' (reach_aos D _ n g Hg) Hp) as Hin.
+        exists n. split; [apply aos_self|].
+        apply (sel_steps_reach D _ W Hne). exists g. split; [exact Hg|].
+        exists c'. split; [exact Hp|]. cbn [expand flat_map]. rewrite app_nil_r.
+        apply in_dos. split.
+        -- pose proof (parent_lt _ _ _ Hp). pose proof (parent_valid _ _ _ Hp). lia.
+        -- right. split.
+           ++ apply container_not_attr. apply (wf_parent_container D g c' W Hp).
+           ++ rewrite <- (root_of_anc D n c' Hin). apply root_of_in.
+    + destruct sp1.
+      * cbn [next_is_desc app]. rewrite Em in *.
+        rewrite (head_generic D (MFunc fs) m1 rest n Um).
+        intros [g [c' [Hg [Hp Hb]]]]. apply Cs in Hg.
+        cbn [body head_is_anyfn] in Hb. rewrite (user_not_anyfn m1 Um) in Hb. cbn [snd] in Hb.
+        exists n. split; [apply aos_self|].
+        apply (sel_steps_reach D _ W Hne). exists g. split; [exact Hg|].
+        exists c'. split; [exact Hp|]. cbn [expand]. apply filter_In. split; [|exact Hb].
+        unfold nodes. apply in_seq.
+        pose proof (parent_lt _ _ _ Hp). pose proof (parent_valid _ _ _ Hp). lia.
+      * cbn [next_is_desc app]. rewrite Em in *.
+        rewrite (head_func_desc D fs m1 rest n Um).
+        intros [g [c' [f [Hg [Hp Fd]]]]]. apply Cs in Hg. apply find_some in Fd.
+        destruct Fd as [Hf Ff].
+        exists n. split; [apply aos_self|].
+        apply (sel_steps_reach D _ W Hne). exists g. split; [exact Hg|].
+        exists c'. split; [exact Hp|]. cbn [expand]. apply in_flat_map.
+        assert (Hc' : c' < length D).
+        { pose proof (parent_lt _ _ _ Hp). pose proof (parent_valid _ _ _ Hp). lia. }
+        exists f. split.
+        -- apply filter_In. split; [|exact Ff]. unfold nodes. apply in_seq.
+           pose proof (aos_le D c' f Hf). lia.
+        -- apply in_dos. split; [exact Hc'|]. right. split; [|exact Hf].
+           apply container_not_attr. apply (wf_parent_container D g c' W Hp).
+Qed.
+
+(* completeness: under the guard *)
+Theorem match_path_complete : forall D p n,
   wf_doc D = true -> wf_path p -> no_left_of_any p = true -> n < length D ->
-  (match_path D p n = true <-> exists a, In a (aos D n) /\ In n (sel_path D p a)).
+  (exists a, In a (aos D n) /\ In n (sel_path D p a)) -> match_path D p n = true.
 Proof.
   intros D [h steps] n W [Wf Sh] G Hn. unfold match_path, compile, sel_path, no_left_of_any in *.
   cbn [p_head p_steps] in *.
   destruct steps as [|[sp1 st1] r].
-  - (* the head alone *)
-    destruct h as [| |fs].
+  - destruct h as [| |fs].
     + discriminate.
     + cbn [app compile_steps next_is_desc sel_steps fold_left]. rewrite step_pattern_one, snd_let.
-      cbn [body head_is_any].
+      cbn [body].
       assert (E : snd (if is_root (kind_of D n) then (Some n, true) else (Some n, false)) = is_root (kind_of D n))
         by (destruct (is_root (kind_of D n)); reflexivity).
-      rewrite E. rewrite (root_kind D n W Hn). split.
-      * intro Hp. exists n. split; [apply aos_self|]. left. rewrite root_of_eq, Hp. reflexivity.
-      * intros [a [Ha [E'|[]]]]. subst n. apply root_of_noparent.
+      rewrite E. rewrite (root_kind D n W Hn).
+      intros [a [Ha [E'|[]]]]. subst n. apply root_of_noparent.
     + cbn [app compile_steps next_is_desc sel_steps fold_left]. rewrite step_pattern_one, snd_let.
-      cbn [body head_is_anyfn snd]. split.
-      * intro H. exists n. split; [apply aos_self|]. apply filter_In.
-        split; [unfold nodes; apply in_seq; lia|exact H].
-      * intros [a [_ H]]. apply filter_In in H. apply H.
+      cbn [body head_is_anyfn snd].
+      intros [a [_ H]]. apply filter_In in H. apply H.
   - assert (Hne : (sp1, st1) :: r <> []) by discriminate.
+    pose proof (chain_sound D _ W Wf Hne n) as Cs.
     destruct (compile_first sp1 st1 r) as [m1 [rest [Em [Um Hany]]]].
     destruct h as [| |fs].
-    + (* relative *)
-      cbn [app]. destruct sp1; [|discriminate].
-      destruct (chain_any D _ W Wf Hne G n) as [Ca Cb]. split.
-      * intro H. rewrite Em in *.
-        destruct (user_result D m1 rest n Um) as [[g Hg]|Hg]; [|rewrite Hg in H; discriminate].
-        pose proof (Ca g Hg) as R. destruct (reach_first_ok D _ n g R) as [a Ha].
-        exists a. split; [eapply aos_parent_in; [eapply reach_aos; exact R|exact Ha]|].
-        apply (sel_steps_reach D _ W Hne). exists g. split; [exact R|].
-        exists a. split; [exact Ha|]. left. reflexivity.
-      * intros [a [_ H]]. apply (sel_steps_reach D _ W Hne) in H.
-        destruct H as [c [R _]]. destruct (Cb c R) as [g [Hg _]]. rewrite Hg. reflexivity.
-    + (* '/' or '//' *)
-      destruct sp1.
-      * cbn [next_is_desc app]. cbn [desc_then_child] in G.
-        pose proof (chain_child D _ W Wf Hne G n) as C. rewrite Em in *.
-        rewrite (head_generic D MRoot m1 rest n Um). split.
-        -- intros [g [c' [Hg [Hp Hb]]]]. apply C in Hg.
-           cbn [body head_is_any] in Hb. rewrite (Hany (all_child_next r G)) in Hb.
-           destruct (is_root (kind_of D c')) eqn:Rt; [|discriminate].
-           pose proof (aos_parent_in D g n c' (reach_aos D _ n g Hg) Hp) as Hin.
-           assert (Hc' : c' < length D).
-           { pose proof (parent_lt _ _ _ Hp). pose proof (parent_valid _ _ _ Hp). lia. }
-           apply (root_kind D c' W Hc') in Rt.
-           exists n. split; [apply aos_self|].
-           apply (sel_steps_reach D _ W Hne). exists g. split; [exact Hg|].
-           exists c'. split; [exact Hp|]. left. symmetry. apply root_unique; assumption.
-        -- intros [a [Ha H]]. apply (sel_steps_reach D _ W Hne) in H.
-           destruct H as [c [R [p [Hp [E|[]]]]]]. subst p.
-           exists c, (root_of D a). split; [apply C; exact R|]. split; [exact Hp|].
-           cbn [body].
-           assert (Hc' : root_of D a < length D).
-           { pose proof (parent_lt _ _ _ Hp). pose proof (parent_valid _ _ _ Hp). lia. }
-           rewrite (proj2 (root_kind D _ W Hc') (root_of_noparent D a)). reflexivity.
-      * cbn [next_is_desc app]. cbn [desc_then_child] in G.
-        destruct (chain_any D _ W Wf Hne G n) as [Ca Cb]. rewrite Em in *.
-        rewrite (head_generic D MAnyWP m1 rest n Um). split.
-        -- intros [g [c' [Hg [Hp Hb]]]]. apply Ca in Hg.
-           pose proof (aos_parent_in D g n c' (reach_aos D _ n g Hg) Hp) as Hin.
-           exists n. split; [apply aos_self|].
-           apply (sel_steps_reach D _ W Hne). exists g. split; [exact Hg|].
-           exists c'. split; [exact Hp|]. cbn [expand flat_map]. rewrite app_nil_r.
-           apply in_dos. split.
-           ++ pose proof (parent_lt _ _ _ Hp). pose proof (parent_valid _ _ _ Hp). lia.
-           ++ right. split.
-              ** apply container_not_attr. apply (wf_parent_container D g c' W Hp).
-              ** rewrite <- (root_of_anc D n c' Hin). apply root_of_in.
-        -- intros [a [Ha H]]. apply (sel_steps_reach D _ W Hne) in H.
-           destruct H as [c [R _]]. destruct (Cb c R) as [g [Hg _]].
-           pose proof (Ca g Hg) as Rg. destruct (reach_first_ok D _ n g Rg) as [c' Hp].
-           exists g, c'. split; [exact Hg|]. split; [exact Hp|].
-           cbn [body]. rewrite (container_not_attr _ (proj1 (wf_parent_container D g c' W Hp))).
-           reflexivity.
-    + (* id()/key() *)
-      destruct sp1.
-      * cbn [next_is_desc app]. cbn [desc_then_child] in G.
-        pose proof (chain_child D _ W Wf Hne G n) as C. rewrite Em in *.
-        rewrite (head_generic D (MFunc fs) m1 rest n Um). split.
-        -- intros [g [c' [Hg [Hp Hb]]]]. apply C in Hg.
-           cbn [body head_is_anyfn] in Hb. rewrite (user_not_anyfn m1 Um) in Hb. cbn [snd] in Hb.
-           exists n. split; [apply aos_self|].
-           apply (sel_steps_reach D _ W Hne). exists g. split; [exact Hg|].
-           exists c'. split; [exact Hp|]. cbn [expand]. apply filter_In. split; [|exact Hb].
-           unfold nodes. apply in_seq.
-           pose proof (parent_lt _ _ _ Hp). pose proof (parent_valid _ _ _ Hp). lia.
-        -- intros [a [Ha H]]. apply (sel_steps_reach D _ W Hne) in H.
-           destruct H as [c [R [p [Hp Hin]]]]. cbn [expand] in Hin. apply filter_In in Hin.
-           exists c, p. split; [apply C; exact R|]. split; [exact Hp|].
-           cbn [body head_is_anyfn]. rewrite (user_not_anyfn m1 Um). cbn [snd]. apply Hin.
-      * cbn [next_is_desc app]. cbn [desc_then_child] in G.
-        destruct (chain_any D _ W Wf Hne G n) as [Ca Cb]. rewrite Em in *.
-        rewrite (head_func_desc D fs m1 rest n Um). split.
-        -- intros [g [c' [f [Hg [Hp Fd]]]]]. apply Ca in Hg. apply find_some in Fd.
-           destruct Fd as [Hf Ff].
-           exists n. split; [apply aos_self|].
-           apply (sel_steps_reach D _ W Hne). exists g. split; [exact Hg|].
-           exists c'. split; [exact Hp|]. cbn [expand]. apply in_flat_map.
-           assert (Hc' : c' < length D).
-           { pose proof (parent_lt _ _ _ Hp). pose proof (parent_valid _ _ _ Hp). lia. }
-           exists f. split.
-           ++ apply filter_In. split; [|exact Ff]. unfold nodes. apply in_seq.
-              pose proof (aos_le D c' f Hf). lia.
-           ++ apply in_dos. split; [exact Hc'|]. right. split; [|exact Hf].
-              apply container_not_attr. apply (wf_parent_container D g c' W Hp).
-        -- intros [a [Ha H]]. apply (sel_steps_reach D _ W Hne) in H.
-           destruct H as [c [R [p [Hp Hin]]]]. cbn [expand] in Hin. apply in_flat_map in Hin.
-           destruct Hin as [f [Hf Hd]]. apply filter_In in Hf. destruct Hf as [_ Ff].
-           assert (Hfp : In f (aos D p)).
-           { apply in_dos in Hd. destruct Hd as [_ [Hd|[_ Hd]]]; [subst; apply aos_self|exact Hd]. }
-           destruct (Cb c R) as [g [Hg Hcg]].
-           pose proof (Ca g Hg) as Rg. destruct (reach_first_ok D _ n g Rg) as [c' Hp'].
-           assert (Hfc : In f (aos D c')).
+    + cbn [app]. destruct sp1; [|discriminate].
+      destruct (chain_any D _ W Wf Hne G n) as [_ Cb].
+      intros [a [_ H]]. apply (sel_steps_reach D _ W Hne) in H.
+      destruct H as [c [R _]]. destruct (Cb c R) as [g [Hg _]]. rewrite Hg. reflexivity.
+    + destruct sp1.
+      * cbn [next_is_desc app].
+        pose proof Em as Em'. rewrite compile_steps_cons in Em'. rewrite Em in *.
+        rewrite (head_generic D MRoot m1 rest n Um).
+        intros [a [Ha H]]. apply (sel_steps_reach D _ W Hne) in H.
+        destruct H as [c [R [p [Hp [E|[]]]]]]. subst p.
+        assert (Hra : root_of D a < length D).
+        { pose proof (parent_lt _ _ _ Hp). pose proof (parent_valid _ _ _ Hp). lia. }
+        pose proof (proj2 (root_kind D _ W Hra) (root_of_noparent D a)) as Rk.
+        destruct (next_is_desc r) eqn:Nd.
+        -- (* '/a//...' *)
+           destruct (chain_any D _ W Wf Hne G n) as [_ Cb].
+           destruct (Cb c R) as [g [Hg Hcg]]. rewrite Em in Hg.
+           pose proof (Cs g Hg) as Rg. destruct (reach_first_ok D _ n g Rg) as [c' Hp'].
+           exists g, c'. split; [exact Hg|]. split; [exact Hp'|].
+           cbn [body]. destruct (is_root (kind_of D c')) eqn:Rt; [reflexivity|].
+           destruct r as [|[[|] st2] r']; try discriminate.
+           destruct (s_attr st1) eqn:At.
+           { exfalso. eapply attr_before_desc_unreachable; eauto. }
+           cbn [next_is_desc] in Em'. inversion Em'. subst m1.
+           apply snd_root_retry.
+           assert (Bc : below_root D c = true) by (unfold below_root; rewrite Hp; exact Rk).
+           assert (Hcc' : In c (aos D c')).
            { apply aos_cases in Hcg. destruct Hcg as [E|[q [Hq Hcg]]].
-             - subst g. rewrite Hp in Hp'. inversion Hp'. subst. exact Hfp.
-             - rewrite Hp' in Hq. inversion Hq. subst q.
-               eapply aos_trans; [exact Hfp|]. eapply aos_parent_in; eauto. }
-           destruct (find_aos D fs c' f Hfc Ff) as [f' [Fd _]].
-           exists g, c', f'. auto.
+             - subst g. rewrite Hp in Hp'. inversion Hp'. subst c'. congruence.
+             - rewrite Hp' in Hq. inversion Hq. subst q. exact Hcg. }
+           destruct (find_aos D (below_root D) c' c Hcc' Bc) as [e [Fd Hce]].
+           pose proof Fd as Fd'. apply find_some in Fd'. destruct Fd' as [_ Be].
+           assert (Ece : c = e) by (apply (below_root_top D e c W Be Hce); congruence).
+           subst e. exists c. split; [exact Fd|].
+           inversion_clear Wf as [|? ? Wst Wr]. cbn [snd] in Wst.
+           cbn [reach] in R. destruct R as [Sok _].
+           apply (step_ok_spec D st1 c W Wst) in Sok. unfold step_ok in Sok. rewrite At in Sok.
+           apply andb_prop in Sok. destruct Sok as [S1 S2].
+           apply andb_prop in S1. destruct S1 as [_ S1]. rewrite S1, S2. reflexivity.
+        -- pose proof (desc_no_next_all_child r G Nd) as Gall.
+           pose proof (chain_child D _ W Wf Hne Gall n) as C.
+           exists c, (root_of D a). split; [rewrite <- Em; apply C; exact R|]. split; [exact Hp|].
+           cbn [body]. rewrite Rk. reflexivity.
+      * cbn [next_is_desc app]. cbn [desc_then_child] in G.
+        destruct (chain_any D _ W Wf Hne G n) as [_ Cb]. rewrite Em in *.
+        rewrite (head_generic D MAnyWP m1 rest n Um).
+        intros [a [Ha H]]. apply (sel_steps_reach D _ W Hne) in H.
+        destruct H as [c [R _]]. destruct (Cb c R) as [g [Hg _]].
+        pose proof (Cs g Hg) as Rg. destruct (reach_first_ok D _ n g Rg) as [c' Hp].
+        exists g, c'. split; [exact Hg|]. split; [exact Hp|].
+        cbn [body]. rewrite (container_not_attr _ (proj1 (wf_parent_container D g c' W Hp))).
+        reflexivity.
+    + destruct sp1.
+      * cbn [next_is_desc app]. cbn [desc_then_child] in G.
+        pose proof (chain_child D _ W Wf Hne G n) as C. rewrite Em in *.
+        rewrite (head_generic D (MFunc fs) m1 rest n Um).
+        intros [a [Ha H]]. apply (sel_steps_reach D _ W Hne) in H.
+        destruct H as [c [R [p [Hp Hin]]]]. cbn [expand] in Hin. apply filter_In in Hin.
+        exists c, p. split; [apply C; exact R|]. split; [exact Hp|].
+        cbn [body head_is_anyfn]. rewrite (user_not_anyfn m1 Um). cbn [snd]. apply Hin.
+      * cbn [next_is_desc app]. cbn [desc_then_child] in G.
+        destruct (chain_any D _ W Wf Hne G n) as [_ Cb]. rewrite Em in *.
+        rewrite (head_func_desc D fs m1 rest n Um).
+        intros [a [Ha H]]. apply (sel_steps_reach D _ W Hne) in H.
+        destruct H as [c [R [p [Hp Hin]]]]. cbn [expand] in Hin. apply in_flat_map in Hin.
+        destruct Hin as [f [Hf Hd]]. apply filter_In in Hf. destruct Hf as [_ Ff].
+        assert (Hfp : In f (aos D p)).
+        { apply in_dos in Hd. destruct Hd as [_ [Hd|[_ Hd]]]; [subst; apply aos_self|exact Hd]. }
+        destruct (Cb c R) as [g [Hg Hcg]].
+        pose proof (Cs g Hg) as Rg. destruct (reach_first_ok D _ n g Rg) as [c' Hp'].
+        assert (Hfc : In f (aos D c')).
+        { apply aos_cases in Hcg. destruct Hcg as [E|[q [Hq Hcg]]].
+          - subst g. rewrite Hp in Hp'. inversion Hp'. subst. exact Hfp.
+          - rewrite Hp' in Hq. inversion Hq. subst q.
+            eapply aos_trans; [exact Hfp|]. eapply aos_parent_in; eauto. }
+        destruct (find_aos D fs c' f Hfc Ff) as [f' [Fd _]].
+        exists g, c', f'. auto.
+Qed.
+
+Theorem match_path_iff : forall D p n,
+  wf_doc D = true -> wf_path p -> no_left_of_any p = true -> n < length D ->
+  (match_path D p n = true <-> exists a, In a (aos D n) /\ In n (sel_path D p a)).
+Proof.
+  intros D p n W Wp G Hn. split.
+  - apply match_path_sound; assumption.
+  - apply match_path_complete; assumption.
 Qed.
 
 (** * unions *)
@@ -263,6 +386,15 @@ Proof.
     destruct H as [a [Ha H]]. exists p, a. auto.
   - intros [p [a [Hp [Ha H]]]]. exists p. split; [exact Hp|].
     apply (match_path_iff D p n W (Wp p Hp) (G p Hp) Hn). exists a. auto.
+Qed.
+
+Theorem matches_sound : forall D P n,
+  wf_doc D = true -> wf_pattern P -> n < length D ->
+  matches D P n = true -> selects D P n.
+Proof.
+  intros D P n W Wp Hn H. unfold matches in H. apply existsb_exists in H.
+  destruct H as [p [Hp H]]. apply (match_path_sound D p n W (Wp p Hp) Hn) in H.
+  destruct H as [a [Ha H]]. exists p, a. auto.
 Qed.
 
 Lemma selectsb_spec : forall D P n, selectsb D P n = true <-> selects D P n.
@@ -320,8 +452,9 @@ Definition k15_doc : doc := [mkN KRoot None; el 2 0; el 0 1; el 5 2; el 0 3; el 
 Definition k15_pat : pattern :=
   [mkPath HRel [(SChild, name_step 2); (SChild, name_step 0); (SDesc, name_step 1)]].
 
-Lemma k14_facts : wf_doc k14_doc = true /\ matches k14_doc k14_pat 3 = true /\
-                  selectsb k14_doc k14_pat 3 = false /\ guard k14_pat = false.
+(* K14 (repaired): the pattern is inside the guard now, and nothing matches *)
+Lemma k14_facts : wf_doc k14_doc = true /\ matches k14_doc k14_pat 3 = false /\
+                  selectsb k14_doc k14_pat 3 = false /\ guard k14_pat = true.
 Proof. vm_compute. repeat split. Qed.
 
 Lemma k15_facts : wf_doc k15_doc = true /\ matches k15_doc k15_pat 5 = false /\
